@@ -153,7 +153,7 @@ func (c *RetryClient) publish(ctx context.Context, cli *BaseClient, message *Mes
 			default:
 			}
 			if retryErr, ok := err.(ErrorWithRetry); ok {
-				c.retryQueue = append(c.retryQueue, retryErr.Retry)
+				c.retryQueue = append(c.retryQueue, c.retryWithRequestContext(retryErr.Retry))
 				c.newRetryByError = true
 			}
 		}
@@ -192,7 +192,7 @@ func (c *RetryClient) subscribe(ctx context.Context, retry bool, cli *BaseClient
 			default:
 			}
 			if retryErr, ok := err.(ErrorWithRetry); ok {
-				c.retryQueue = append(c.retryQueue, retryErr.Retry)
+				c.retryQueue = append(c.retryQueue, c.retryWithRequestContext(retryErr.Retry))
 				c.newRetryByError = true
 			}
 		}
@@ -222,7 +222,7 @@ func (c *RetryClient) unsubscribe(ctx context.Context, cli *BaseClient, topics .
 			default:
 			}
 			if retryErr, ok := err.(ErrorWithRetry); ok {
-				c.retryQueue = append(c.retryQueue, retryErr.Retry)
+				c.retryQueue = append(c.retryQueue, c.retryWithRequestContext(retryErr.Retry))
 				c.newRetryByError = true
 			}
 		}
@@ -380,6 +380,15 @@ func (c *requestContext) Err() error {
 	return &RequestTimeoutError{c.Context.Err()}
 }
 
+// retryWithRequestContext applies ResponseTimeout to a retransmission.
+func (c *RetryClient) retryWithRequestContext(retry retryFn) retryFn {
+	return func(ctx context.Context, cli *BaseClient) error {
+		ctx2, cancel := c.requestContext(ctx)
+		defer cancel()
+		return retry(ctx2, cli)
+	}
+}
+
 func (c *RetryClient) pushTask(ctx context.Context, task func(ctx context.Context, cli *BaseClient)) error {
 	c.mu.Lock()
 	defer c.mu.Unlock()
@@ -459,8 +468,10 @@ func (c *RetryClient) Retry(ctx context.Context) {
 
 			err := retry(ctx, cli)
 			if retryErr, ok := err.(ErrorWithRetry); ok {
-				c.retryQueue = append(c.retryQueue, retryErr.Retry)
+				c.onError(err)
+				c.retryQueue = append(c.retryQueue, c.retryWithRequestContext(retryErr.Retry))
 				c.retryQueue = append(c.retryQueue, oldRetryQueue[i+1:]...)
+				c.newRetryByError = true
 				verifEvent("retryRequeue", int64(len(c.retryQueue)))
 				break
 			}
